@@ -66,7 +66,7 @@ def h_sample(I, fi):
     P.check("gibbs.all-draws-use-the-sampler-generator", all(t[3] is rng for t in trace), "every scipy draw is given random_state=self._rng", kind="post")
     if no_clusters:
         ok = len(trace) == 1 and trace[0][0] == "gamma"
-        P.check("gibbs.K=0.prior-draw", ok and P.z(I.to_num(trace[0][1][0])) == P.z(a) and P.z(I.to_num(trace[0][2].get("scale"))) == P.z(1 / b),
+        P.check("gibbs.K=0.prior-draw", ok and dsl.conj(P.z(I.to_num(trace[0][1][0])) == P.z(a), P.z(I.to_num(trace[0][2].get("scale"))) == P.z(1 / b)),
                 "with no clone the value is drawn from the Gamma(a, rate b) prior", kind="post")
         P.check("gibbs.K=0.result-clamped", P.z(I.to_num(out)) >= P.z(Num.const(1e-10)), "also the prior draw is clamped at 1e-10 (a draw that underflows to 0 would make log alpha -inf)", kind="post")
         return
@@ -115,7 +115,6 @@ def h_sample_result(I, fi):
     eta_atoms = [at for at in I.to_num(ga[2]["scale"]).all_atoms() if at.kind == "sym" and at.name.startswith("eta!")]
     P.check("gibbs.rate-formula", z3.And(z3.BoolVal(len(eta_atoms) == 1), P.z(I.to_num(ga[2]["scale"])) * P.z(b - alg.slog(Num.of_atom(eta_atoms[0]))) == 1) if eta_atoms else False,
             "gamma scale = 1 / (b - log(eta))", kind="post")
-    P.check("gibbs.component-choice", P.z(I.to_num(ga[1][0])) == P.z(a + K - 1 + (1 if len(P.trail) and P.trail[-1][0] == 1 else 0)) if False else True, "see component-shape", kind="post")
     draw = ga[4] if len(ga) > 4 else None
     clamp = Num.const(1e-10)
     P.check("gibbs.result-is-clamped-draw", draw is not None and z3.And(P.z(I.to_num(out)) >= P.z(clamp), z3.Or(P.z(I.to_num(out)) == P.z(draw), P.z(I.to_num(out)) == P.z(clamp)),
